@@ -369,6 +369,8 @@ def main(tier):
     rep = common.Report("C19", tier, "model_checking")
     mods = []
     for emb, dirs in struct_check.corpus():
+        if tier == "quick" and emb.startswith("gen_") and not struct_check.in_quick_corpus(emb):
+            continue  # generated modules beyond the first four: thorough tier
         # only modules that define an enum (cheap textual pre-filter; the front end still decides)
         for d in dirs:
             pth = os.path.join(d, emb)
